@@ -4,8 +4,8 @@ import json
 from lib.verif import *
 
 THEOREMS = [
-    "C11_handshake_agrees", "C11_handshake_rejects_partial", "C11_stream_roundtrip",
-    "C11_nonce_unique", "C11_tamper_rejected",
+    "C11_handshake_agrees", "C11_handshake_rejects", "C11_stream_roundtrip",
+    "C11_nonce_unique", "C11_tamper_rejected", "C11_conn_stream_roundtrip",
 ]
 MODULE = "LV.Noise.Props"
 TARGETS = ["theories/Noise/Props.vo", "theories/Noise/Exec.vo", "theories/Noise/Examples.vo"]
@@ -25,7 +25,36 @@ def cb(hexstr):
 def cmsg(m):
     if m[0] == "lit":
         return "(MLit %s)" % cb(m[1])
+    if m[0] == "seq":
+        return "(MSeq %d %d)" % (m[1], m[2])
     return "(MRep %d %d)" % (m[1], m[2])
+
+
+def comsg(m):
+    return "None" if m is None else "(Some %s)" % cmsg(m)
+
+
+def cscript(rs):
+    return clist([cresp(r) for r in rs])
+
+
+def ckop(o):
+    k = o[0]
+    if k == "cw":
+        return "KWrite %s %s %s %d %d %d %d" % (cbool(o[1]), cmsg(o[2]), cscript(o[3]), o[4], o[5], o[6], o[7])
+    if k == "cwm":
+        return "KWriteMsg %s %s %d" % (cbool(o[1]), cmsg(o[2]), o[3])
+    if k == "cf":
+        return "KFlush %s %s %d %d %d %d" % (cbool(o[1]), cscript(o[2]), o[3], o[4], o[5], o[6])
+    if k == "cr":
+        return "KRead %s %d %d %s" % (cbool(o[1]), o[2], o[3], comsg(o[4]))
+    if k == "crn":
+        return "KReadNext %s %d %s" % (cbool(o[1]), o[2], comsg(o[3]))
+    if k == "crh":
+        return "KReadHdr %s %d %d" % (cbool(o[1]), o[2], o[3])
+    if k == "crb":
+        return "KReadBody %s %d %d %s" % (cbool(o[1]), o[2], o[3], comsg(o[4]))
+    raise ValueError(k)
 
 
 def ctamper(t):
@@ -88,6 +117,8 @@ def case_term(c):
             clist([ctamper(t) for t in c["t1"]]), clist([ctamper(t) for t in c["t2"]]),
             clist([ctamper(t) for t in c["t3"]]),
             clist([str(x) for x in c["obs"]]), cbool(c["agree"]))
+    if c["kind"] == "conn":
+        return "CCn %s" % clist([ckop(o) for o in c["ops"]])
     return "CTr %s" % clist([ctop(o) for o in c["ops"]])
 
 
@@ -263,15 +294,85 @@ def pred_tr(c, stats):
     return f
 
 
-def pred_conn(c):
+def pred_conn(c, stats=None):
+    """Predicate on the trace of one Conn case (two Conns over scripted faulty net.Conns):
+    * the bytes obtained through Conn.Read / ReadNext* equal the bytes written through Conn.Write /
+      WriteMessage(+Flush retries), per direction, in order;
+    * Conn.Write without error returns len(b); the counts returned by Write and Flush add up to the
+      bytes handed over; a write while a record is pending is refused with count 0;
+    * Conn.Read returns at most len(b) bytes, never fails with a MAC error on a clean link; the only
+      failures are io.EOF (nothing there / empty record) and, on a torn record, EOF."""
     f = []
-    if not all(c["equal"]):
-        f.append("Conn.Read bytes differ from Conn.Write bytes: sent %s got %s" % (c["sent"], c["got"]))
-    for e in c["events"]:
-        if e[0] in ("cw_err", "cr_err"):
-            f.append("Conn error on a clean link: %s" % e)
-        if e[0] == "cw" and e[2] != e[3]:
-            f.append("Conn write of %d bytes reported %d" % (e[2], e[3]))
+    mx = c.get("maxmsg", 65535)
+    torn = c.get("torn", [False, False])
+    for d in (0, 1):
+        if not c["equal"][d]:
+            f.append("direction %d: Conn.Read bytes differ from Conn.Write bytes (sent %d got %d)" % (
+                d, c["sent"][d], c["got"][d]))
+        if not torn[d] and c["acct"][d] != c["sent"][d]:
+            f.append("direction %d: counts returned sum to %d, %d bytes were handed over" % (
+                d, c["acct"][d], c["sent"][d]))
+    pend = {True: False, False: False}
+    gotn = {True: 0, False: 0}
+    for i, o in enumerate(c["ops"]):
+        k, d = o[0], o[1]
+        if stats is not None:
+            stats["conn_ops"][k] = stats["conn_ops"].get(k, 0) + 1
+        if k == "cw":
+            n, code, l = o[4], o[5], mlen(o[2])
+            if stats is not None:
+                stats["conn_write_codes"][code] = stats["conn_write_codes"].get(code, 0) + 1
+                stats["conn_write_sizes"].append(l)
+            if pend[d]:
+                if code != 6 or n != 0:
+                    f.append("op %d: Conn.Write while a record is pending returned (%d, code %d)" % (i, n, code))
+                continue
+            if code == 0 and n != l:
+                f.append("op %d: Conn.Write of %d bytes returned %d without error" % (i, l, n))
+            if code not in (0, 8):
+                f.append("op %d: Conn.Write failed with code %d" % (i, code))
+            if n > l:
+                f.append("op %d: Conn.Write of %d bytes returned %d" % (i, l, n))
+            if code == 0 and o[8]:
+                f.append("op %d: Conn.Write returned no error but a record is still buffered" % i)
+            pend[d] = o[8]
+            expect_calls = 2 * ((l + mx - 1) // mx if l else 1)
+            if code == 0 and o[6] != expect_calls:
+                f.append("op %d: Conn.Write of %d bytes made %d net.Conn writes, expected %d (records of "
+                         "at most %d bytes)" % (i, l, o[6], expect_calls, mx))
+        elif k == "cwm":
+            if o[3] != 0 and not (pend[d] and o[3] == 6):
+                f.append("op %d: WriteMessage failed with code %d" % (i, o[3]))
+            pend[d] = o[4]
+        elif k == "cf":
+            if o[4] == 0 and o[7]:
+                f.append("op %d: Flush returned no error but a record is still buffered" % i)
+            if o[4] not in (0, 8):
+                f.append("op %d: Flush failed with code %d" % (i, o[4]))
+            pend[d] = o[7]
+        elif k == "cr":
+            kk, code, m = o[2], o[3], o[4]
+            if stats is not None:
+                stats["conn_read_codes"][code] = stats["conn_read_codes"].get(code, 0) + 1
+            if code == 0:
+                if mlen(m) > kk:
+                    f.append("op %d: Conn.Read into %d bytes returned %d" % (i, kk, mlen(m)))
+                gotn[d] += mlen(m)
+            elif code != 4:
+                f.append("op %d: Conn.Read failed with code %d on a clean link" % (i, code))
+        elif k in ("crn", "crb"):
+            code, m = (o[2], o[3]) if k == "crn" else (o[3], o[4])
+            if code == 0:
+                gotn[d] += mlen(m)
+            elif code != 4:
+                f.append("op %d: %s failed with code %d on a clean link" % (i, k, code))
+        elif k == "crh":
+            if o[2] not in (0, 4):
+                f.append("op %d: ReadNextHeader failed with code %d on a clean link" % (i, o[2]))
+    for d in (0, 1):
+        if gotn[bool(d)] != c["got"][d]:
+            f.append("direction %d: read results sum to %d bytes, harness collected %d" % (
+                d, gotn[bool(d)], c["got"][d]))
     return f
 
 
@@ -285,13 +386,13 @@ def predicate_all(ctx, rows, stats, limit=3, env=None):
     nfail = 0
     for ci, c in enumerate(rows):
         if c["kind"] == "hs":
-            f, th = pred_hs(c), ("C11_handshake_agrees" if (c["target"] == 0 and not c["tampered"]) else "C11_handshake_rejects_partial")
+            f, th = pred_hs(c), ("C11_handshake_agrees" if (c["target"] == 0 and not c["tampered"]) else "C11_handshake_rejects")
         elif c["kind"] == "tr":
             f, th = pred_tr(c, stats), "C11_stream_roundtrip"
             if f and ("tamper" in f[0] or "position" in f[0] or "twice" in f[0]):
                 th = "C11_tamper_rejected" if "tamper" in f[0] else "C11_nonce_unique"
         else:
-            f, th = pred_conn(c), "C11_stream_roundtrip"
+            f, th = pred_conn(c, stats), "C11_conn_stream_roundtrip"
         if f:
             nfail += 1
             if nfail <= limit:
@@ -307,7 +408,8 @@ def predicate_all(ctx, rows, stats, limit=3, env=None):
 def new_stats():
     return {"ops": {}, "wcodes": {}, "rcodes": {}, "flush": {"ok": 0, "err": 0}, "tampers": {},
             "sizes": [], "rotations": 0, "many_msgs": 0, "tamper_rejected": 0,
-            "odd_position_reads": 0, "bulk_after_break_delivered": 0}
+            "odd_position_reads": 0, "bulk_after_break_delivered": 0,
+            "conn_ops": {}, "conn_write_codes": {}, "conn_read_codes": {}, "conn_write_sizes": []}
 
 
 def run(ctx):
@@ -339,7 +441,7 @@ def run(ctx):
     nfail = predicate_all(ctx, rows, stats)
 
     # correspondence: spread the heavy cases over the shards
-    model_rows = [i for i, c in enumerate(rows) if c["kind"] in ("hs", "tr")]
+    model_rows = [i for i, c in enumerate(rows) if c["kind"] in ("hs", "tr", "conn")]
     nsh = 12
     order = [i for s in range(nsh) for i in model_rows[s::nsh]]
     terms = ["(%s)%%N" % case_term(rows[i]) for i in order]
@@ -354,7 +456,8 @@ def run(ctx):
         # disagreed, other seeds)
         kinds_bad = {rows[order[ti]]["kind"] for ti, _ in bad}
         for extra in (1, 2, 3):
-            env2 = {"VERIF_SEED": str(ctx.seed * 7919 + extra), "VERIF_N_CONN": "0",
+            env2 = {"VERIF_SEED": str(ctx.seed * 7919 + extra),
+                    "VERIF_N_CONN": "300" if "conn" in kinds_bad else "0",
                     "VERIF_N_HS": "4000" if "hs" in kinds_bad else "0",
                     "VERIF_N_TR": "400" if "tr" in kinds_bad else "0",
                     "VERIF_N_ROT": "8" if "tr" in kinds_bad else "0"}
@@ -365,12 +468,13 @@ def run(ctx):
     for ti, opsidx in bad[:3]:
         c = rows[order[ti]]
         detail = {"case_index": order[ti], "kind": c["kind"], "op_indices": opsidx[:20]}
-        if c["kind"] == "tr":
+        if c["kind"] in ("tr", "conn"):
             lo = max(0, opsidx[0] - 6)
             detail["ops_before_and_at_first_disagreement"] = c["ops"][lo:opsidx[0] + 1]
         else:
             detail["case"] = c
-        fails = pred_hs(c) if c["kind"] == "hs" else pred_tr(c, new_stats())
+        fails = (pred_hs(c) if c["kind"] == "hs" else pred_conn(c) if c["kind"] == "conn"
+                 else pred_tr(c, new_stats()))
         ctx.violation("correspondence_mismatch", "Noise.Exec.check_case", detail,
                       signature="noise mismatch %s" % c["kind"], failing_input=bool(fails))
     if not pr["ok"] and not ctx.violations:
